@@ -210,6 +210,32 @@ def run(ck):
     ck.rule("C06-O8", "the dates that name rotated files come from one time base (message time, file time and wall clock all local, or all UTC)")
     from rules.rfs import time_base_agreement
     time_base_agreement(ck, S, "C06-O8")
+    frontends_keep_count(ck, "C06-O9")
+
+
+def frontends_keep_count(ck, rid):
+    """the limit reaches the sink with its meaning through the library's configuration front-end: max_file_count <= 0 is "keep every rotated file", 1 "never
+    rotate" (the by-cases tabulation of rules/c19.py, obligation ini|value|max_file_count, shared)"""
+    import copy
+    from rules import c19
+    ck.rule(rid, "configure(settings): the value of max_file_count reaches RotatingFileSink unchanged in meaning (<= 0 keep everything, 1 never rotate, N >= 2 at most N files)")
+    F = ck.facts
+    ini = F.fn("QtLogger::configure", sig_contains="const QSettings &", optional=True)
+    if ini is None:
+        ck.ob(rid, "(configure)", None, "configure(Pipeline *, const QSettings &, ...) not found", key="frontend|count-meaning")
+        return
+    sub = copy.copy(ck)
+    sub.obligations, sub.rules, sub.functions_analysed, sub.notes = [], {}, set(), []
+    try:
+        c19.ini_rules(sub, ini)
+    except AnalysisBroken:
+        pass
+    got = [o for o in sub.obligations if (o.get("key") or "").endswith("ini|value|max_file_count")]
+    ck.touch(ini)
+    if not got:
+        ck.ob(rid, sitestr(ini), None, "how max_file_count travels from the settings to the sink could not be followed", key="frontend|count-meaning")
+    for o in got:
+        ck.ob(rid, o["site"], {"discharged": True, "violated": False}.get(o["verdict"]), o["what"], key="frontend|count-meaning")
 
 
 def pattern_templates(fn, ck=None):
